@@ -11,7 +11,7 @@ from hypothesis import strategies as st
 from hypothesis.stateful import rule, initialize
 
 import eqsig
-from eqsig import sdof, im, surface, stockwell, multiple, loader
+from eqsig import sdof, im, surface, stockwell, multiple, loader, design_spectra
 from eqsig import displacements as disp_mod
 from eqsig.fns import average as f_av, generic as f_gen, frequency as f_fr, peaks_and_crossings as f_pk
 from eqsig.fns import time_shift as f_ts, time_step as f_tstep
@@ -40,9 +40,26 @@ ASSUMPTIONS = [
     "up_red / down_red are varied together (two scalars or two arrays of one value per travel time - the library accepts no mixture); "
     "get_section_average / time_indices are crossed separately for index=False (times) and index=True (sample numbers); in the small-record "
     "clause the all-default and the all-non-default member of every cross product run in every case, the other members in one case out of four",
-    "a result must share no memory with an argument (otherwise the caller's later in-place edit of the result - which the check performs "
-    "before calling again - would corrupt the input).  One documented pass-through is exempt: surface.trim_to_length(trim=False, start=False) "
-    "returns its `values` argument itself ('no changes required' in the source); for it only 'arguments unchanged' and 'same result' are asserted",
+    "results and aliasing (decided after the audit): the statement does not forbid a result that is a view of the INPUT (documented pass-through "
+    "trim_to_length(trim=False, start=False), a slice view, `return values` for a no-op); such result arrays are labelled, not failed and "
+    "not overwritten.  Kept, because the statement implies them: (i) 'returns the same result when called again' is asserted after the caller "
+    "overwrote every other array of the first result in place (a result that is a buffer kept by the library or cached on the signal "
+    "argument then differs the second time); an exception in the second call after a successful first call is a violation, not a "
+    "rejection; (ii) a returned Signal owns its data (sentence 1): it is not one of the arguments and its values share no memory with one",
+    "two calls with identical arguments in one process are compared exactly (NaN-aware): vcheck pins OMP/BLAS threads to 1 and NumPy's pocketfft "
+    "is deterministic, so any pure function returns identical bits; no tolerance is needed and none would be derivable from the statement",
+    "a signal ARGUMENT is snapshotted as: values, dt, npts, its settings arrays (response_times, smooth_fa_freqs - plain attribute reads) and, for "
+    "the third of the call forms whose signal objects are warmed beforehand (fa / smoothed spectrum / velocity / displacement / peaks read, "
+    "response spectra for a quarter of those), every array in the object's instance dict that was present before the call; additionally the "
+    "arrays present after the first call must be unchanged by the second.  Each form gets its own fresh signal objects; AccSignal arguments "
+    "carry the short period list [0, 1.5, 3, 12, 40] dt in two environments out of three, the 100 default periods otherwise",
+    "parameter-ownership covers the CONSTRUCTOR arguments response_times / smooth_fa_freqs.  Not asserted (pinned behaviour, reported): the "
+    "setters `asig.response_times = T`, gen_response_spectrum(response_times=T) and gen_smooth_fa_spectrum(smooth_fa_freqs=F) store the caller's "
+    "array itself; the statement names construction and reset_values only",
+    "design_spectra: c_h_factor (array / list periods) and sd_nzs (1-element array; a longer array is rejected by its scalar comparisons) are in the "
+    "registry; t_eff takes scalars only",
+    "time == dt*[0..npts-1] is asserted to 4 ulps of each entry (dt*arange, arange*dt and linspace(0, dt*(npts-1), npts) all qualify); "
+    "cluster members: len(values) == npts (not == the input length: a trimming time_match is correct)",
     "forms that raise on the pinned tree for every input are still called (inputs must stay unchanged) but are not counted as unexpected "
     "rejections: np.trapz is gone from NumPy 2.x (calc_acc_rms, calc_vsi_temporal, calc_fourier_moment, get_bandwidth_boore_2003), calc_a_rms "
     "was removed by the authors (always raises), calc_sir unpacks the scalar that calc_significant_duration returns",
@@ -90,6 +107,8 @@ def _container(spec, how):
         return gen.narrow_int(a, how)[0]
     if how == "list":
         return [float(v) for v in a]
+    if how in ("view", "readonly", "negstride"):  # the same float64 values in a non-contiguous / read-only / reversed-stride array
+        return gen.as_container({"as": how}, np.array(a, dtype=float))
     if how == "subclass":
         return np.array(a, dtype=float).view(RecordArray)
     if how == "arraylike":
@@ -108,8 +127,78 @@ def _snap(x):
         return ("tuple", tuple(_snap(v) for v in x))
     if isinstance(x, eqsig.Signal):
         v = x.values
-        return ("sig", type(x).__name__, _snap(v if isinstance(v, np.ndarray) else list(v)), x.dt, x.npts)
+        # a signal ARGUMENT: its record, dt, npts, its settings arrays (always present) and - when the object was warmed before the
+        # call (every cached series / spectrum already computed, see _warm) - every array the object holds.  Nothing here triggers a
+        # lazy computation: the settings are plain attribute reads, the cached arrays are taken from the instance dict.
+        return ("sig", type(x).__name__, _snap(v if isinstance(v, np.ndarray) else list(v)), x.dt, x.npts, _sig_settings(x),
+                _sig_state(x) if getattr(x, "_c05_warm", False) else None)
     return ("other", repr(x))
+
+
+def _arr_snap(v):
+    if isinstance(v, np.ndarray):
+        return ("nd", v.dtype.str, v.shape, v.tobytes())
+    if isinstance(v, (list, tuple)) and len(v) <= 100000 and all(isinstance(e, (int, float, np.number)) for e in v):
+        return ("seq", type(v).__name__, tuple(float(e) for e in v))
+    return None
+
+
+def _sig_settings(x):
+    """The settings arrays of a signal (periods of the response spectra, target frequencies of the smoothed spectrum)."""
+    out = []
+    for name in ("response_times", "smooth_fa_freqs"):
+        try:
+            v = getattr(x, name)
+        except Exception:  # noqa  (a Signal has no response_times)
+            continue
+        out.append((name, _arr_snap(v)))
+    return tuple(out)
+
+
+def _sig_state(x):
+    """Every array the signal object holds (instance dict, one level into dicts): cached velocity / displacement / Fourier / smoothed /
+    response spectra, settings, anything a function stored on it.  Keys are only labels; no property is read."""
+    out = []
+    for k in sorted(vars(x)):
+        v = vars(x)[k]
+        if isinstance(v, dict):
+            for kk in sorted(v, key=str):
+                sn = _arr_snap(v[kk])
+                if sn is not None:
+                    out.append((k + "." + str(kk), sn))
+        else:
+            sn = _arr_snap(v)
+            if sn is not None:
+                out.append((k, sn))
+    return tuple(out)
+
+
+def _warm(sig, n_max_smooth=40000, n_max_spectra=3000, spectra=True):
+    """Read every cached observable once, so that it is present (and comparable) before an analysis function is called."""
+    names = ["fa_spectrum", "fa_frequencies"]
+    if sig.npts <= n_max_smooth:
+        names.append("smooth_fa_spectrum")
+    if isinstance(sig, eqsig.AccSignal):
+        names += ["velocity", "displacement", "pga", "pgv", "pgd"]
+        if spectra and sig.npts <= n_max_spectra:
+            names += ["s_a", "s_v", "s_d"]
+    for nm in names:
+        try:
+            with warnings.catch_warnings():
+                warnings.simplefilter("ignore")
+                getattr(sig, nm)
+        except Exception:  # noqa  (a degenerate record: whatever could be computed is cached)
+            pass
+    sig._c05_warm = True
+    return sig
+
+
+def _time_ok(t, dt, npts):
+    """time == dt*[0..npts-1] up to a few ulps (dt*arange, arange*dt, linspace(0, dt*(npts-1), npts) all qualify)."""
+    if not (isinstance(t, np.ndarray) and t.shape == (npts,)):
+        return False
+    want = float(dt) * np.arange(npts)
+    return bool(np.all(np.abs(np.asarray(t, dtype=float) - want) <= 4 * np.finfo(float).eps * np.abs(want)))
 
 
 # ---------------------------------------------------------------------------
@@ -117,10 +206,6 @@ def _snap(x):
 
 IN_PLACE = {"running_average", "rra_velocity", "rra_acc", "rebase_displacement", "zero_res_velocity", "zero_res_displacement",
             "zero_res_disp_and_velocity", "correct_me", "butter_pass", "remove_poly"}
-OWN_MUTS = [m for m in c04mod.MUTATORS if m not in ("set_freqs", "set_frequencies", "set_freq_range", "set_freq_points",
-                                                    "set_by_range", "gen_smooth_w_freqs", "set_response_times", "gen_rs_w_times",
-                                                    "response_series_w_times", "reset_values")]
-
 
 class Own(object):
     def __init__(self, init, ctx):
@@ -150,8 +235,7 @@ class Own(object):
         ctx.check(vals.dtype.kind in "fiu", "%s: Signal.values has dtype %s" % (what, vals.dtype))
         ctx.check(vals.ndim == 1 and len(vals) == self.obj.npts, "%s: len(values)=%s but npts=%s" % (what, vals.shape, self.obj.npts))
         t = self.obj.time
-        ctx.check(isinstance(t, np.ndarray) and t.shape == (self.obj.npts,) and np.array_equal(t, self.dt * np.arange(self.obj.npts)),
-                  "%s: time is not dt*[0..npts-1]" % what)
+        ctx.check(_time_ok(t, self.dt, self.obj.npts), "%s: time is not dt*[0..npts-1]" % what)
 
     def step(self, op, args):
         ctx = self.ctx
@@ -189,10 +273,10 @@ class Own(object):
                 return
             if op in ("zero_res_velocity",) and not np.any(np.asarray(vals, dtype=float)):
                 return  # pga == 0: division by zero inside the method, not an ownership matter
-            c04mod._apply(ctx, self.obj, op, args)
-            ctx.cls("mut=" + op)
-            if self.after_reset:
-                ctx.nt(True)
+            if c04mod._apply(ctx, self.obj, op, args):
+                ctx.cls("mut=" + op)
+                if self.after_reset:
+                    ctx.nt(True)
             if not np.all(np.isfinite(np.asarray(self.obj.values, dtype=float))):
                 self._construct("A")  # the history overflowed the record; start again from A
             self._check(op)
@@ -201,6 +285,8 @@ class Own(object):
         self._check("end of history")
 
 
+# time steps: decimal ones and ones with more than 6 decimals (1/128 s, 1/120 s: a time axis rounded to the microsecond is not dt*k)
+OWN_DTS = [0.005, 0.01, 0.02, 0.0078125, 1.0 / 120.0]
 HM = history_machine_base()
 _small = gen.record_specs(min_n=40, max_n=120, small_max=60, kinds=["noise", "sines", "walk", "dyadic", "vals"], amp_lo=-2, amp_hi=2,
                           allow_zero_runs=False)
@@ -208,7 +294,7 @@ _how = st.sampled_from(["float", "float", "int", "list", "subclass", "arraylike"
 
 
 class OwnMachine(HM):
-    @initialize(A=_small, B=_small, dt=st.sampled_from([0.005, 0.01, 0.02]), acc=st.booleans(), ha=_how, hb=_how)
+    @initialize(A=_small, B=_small, dt=st.sampled_from(OWN_DTS), acc=st.booleans(), ha=_how, hb=_how)
     def init(self, A, B, dt, acc, ha, hb):
         self.start({"A": A, "B": B, "dt": dt, "acc": acc, "how": {"A": ha, "B": hb}})
 
@@ -277,43 +363,176 @@ machine_clause(CLAUSES, "ownership", OwnMachine, Own, quick=250, thorough=400, q
                     "construct Signal/AccSignal from A|B, reset_values(A|B), 15 mutators incl. every in-place correction, 'caller writes into A|B'; "
                     "non-trivial = at least one mutator applied after a reset_values",
                oracle="invariants after every step: caller containers equal their snapshots (dtype, shape, bytes); a caller write does not change "
-                      "Signal.values; values is a 1-d numeric ndarray with len == npts; time == dt*arange(npts) exactly",
+                      "Signal.values; values is a 1-d numeric ndarray with len == npts; time == dt*arange(npts) to 4 ulps",
                min_nontrivial=0.2)
+
+
+_POST = ["running_average", "add_constant", "remove_poly", "remove_average", "butter_pass", "add_series", "rra_velocity", "zero_res_displacement"]
+_POST_ARGS = {"running_average": {"w": 4}, "add_constant": {"c": 0.3}, "remove_poly": {"k": 1}, "remove_average": {"section": 10},
+              "butter_pass": {"lo": 0.1, "hi": 0.5, "order": 2, "gibbs": None}, "add_series": {"seed": 9}, "rra_velocity": {"width": 6},
+              "zero_res_displacement": {}}
 
 
 @st.composite
 def _cluster_cases(draw):
     n = draw(st.integers(40, 120))
     k = draw(st.integers(2, 4))
+    post = draw(st.lists(st.tuples(st.integers(0, k - 1), st.sampled_from(_POST + ["caller_write", "caller_write"]), st.integers(0, 200),
+                                   st.integers(-9, 9)), min_size=0, max_size=6))
     return {"n": n, "k": k, "seed": draw(st.integers(0, 10 ** 6)), "lags": draw(st.lists(st.integers(-6, 6), min_size=k, max_size=k)),
             "master": draw(st.integers(0, k - 1)), "steps": draw(st.integers(7, 12)), "stype": draw(st.sampled_from(["custom", "acc"])),
-            "how": draw(st.sampled_from(["ndarray", "lists"]))}
+            "how": draw(st.sampled_from(["ndarray", "lists", "rows"])), "names": draw(st.booleans()), "trim": draw(st.booleans()),
+            "extra": draw(st.sampled_from(["", "", "combine", "spectra"])), "post": [list(x) for x in post]}
 
 
 @clause(CLAUSES, "cluster-values", _cluster_cases(), quick=150, thorough=500,
-        rule="Cluster of 2-4 lagged copies of a random record (lags -6..6), any master; time_match then same_start; non-trivial = some non-zero lag",
-        oracle="invariant: every signal's values stay a 1-d numeric ndarray with len == npts and the caller's 2-d input is unchanged")
+        rule="Cluster of 2-4 lagged copies of a random record (lags -6..6) given as a 2-d ndarray, a list of lists or a list of row views of one "
+             "2-d array, any master, Signal or AccSignal members, optional names list; time_match (trim option) then same_start, optionally "
+             "combine_motions / generate_response_spectrums, then up to 6 further steps: an in-place correction on one member signal or a "
+             "caller write into its own input; non-trivial = some non-zero lag and at least one later step",
+        oracle="invariants after every step: every member's values stay a 1-d numeric ndarray with len == npts; the caller's input (2-d array / "
+               "lists / names) equals its snapshot - no correction on a member reaches it; a caller write changes no member's values",
+        min_nontrivial=0.3)
 def cluster_values(case, ctx):
     rs = np.random.RandomState(case["seed"])
     n, k = case["n"], case["k"]
     base = rs.standard_normal(n + 40)
     rows = [base[20 + lag:20 + lag + n].copy() for lag in case["lags"]]
-    vals = np.array(rows) if case["how"] == "ndarray" else [list(map(float, r)) for r in rows]
-    snap = _snap(vals) if isinstance(vals, np.ndarray) else copy.deepcopy(vals)
-    ctx.nt(any(l != case["lags"][case["master"]] for l in case["lags"]))
-    ctx.cls("k=%d" % k, "master=%d" % case["master"], "stype=" + case["stype"])
-    cl = ctx.lib(multiple.Cluster, vals, 0.01, master_index=case["master"], stypes=case["stype"])
-    ctx.lib(cl.time_match, steps=case["steps"])
-    ctx.lib(cl.same_start, start=0, end=0.2)
-    for i in range(k):
-        s = cl.signal_by_index(i)
-        v = s.values
-        ctx.check(isinstance(v, np.ndarray) and v.dtype.kind in "fiu" and v.ndim == 1,
-                  "after time_match/same_start signal %d has values of type %s" % (i, type(v).__name__))
-        ctx.check(len(v) == s.npts == n, "signal %d: len(values)=%d npts=%s expected %d" % (i, len(v), s.npts, n))
-    now = _snap(vals) if isinstance(vals, np.ndarray) else vals
-    ctx.check(now == snap, "Cluster modified the caller's input values")
+    how = case.get("how", "ndarray")
+    block = np.array(rows)
+    vals = block if how == "ndarray" else ([block[i] for i in range(k)] if how == "rows" else [list(map(float, r)) for r in rows])
+    names = ["rec%d" % i for i in range(k)] if case.get("names") else None
+    names_snap = copy.deepcopy(names)
 
+    def snap_in():
+        return (_snap(block), copy.deepcopy(vals) if how == "lists" else None)
+    snap = snap_in()
+    post = case.get("post", [])
+    ctx.nt(any(l != case["lags"][case["master"]] for l in case["lags"]) and len(post) > 0)
+    ctx.cls("k=%d" % k, "master=%d" % case["master"], "stype=" + case["stype"], "in=" + how)
+    kw = {} if names is None else {"names": names}
+    cl = ctx.lib(multiple.Cluster, vals, 0.01, master_index=case["master"], stypes=case["stype"], **kw)
+
+    def check(what):
+        for i in range(k):
+            s = cl.signal_by_index(i)
+            v = s.values
+            ctx.check(isinstance(v, np.ndarray) and v.dtype.kind in "fiu" and v.ndim == 1,
+                      "%s: signal %d has values of type %s" % (what, i, type(v).__name__))
+            # (the statement asks len == npts; a time_match that trims all members to a common shorter length is also correct)
+            ctx.check(len(v) == s.npts, "%s: signal %d: len(values)=%d but npts=%s" % (what, i, len(v), s.npts))
+        ctx.check(snap_in() == snap, "%s: the Cluster / one of its signals modified the caller's input values" % what)
+        ctx.check(names == names_snap, "%s: the caller's names list was modified" % what)
+    check("construction")
+    ctx.lib(cl.time_match, steps=case["steps"], trim=case.get("trim", True))
+    check("time_match")
+    ctx.lib(cl.same_start, start=0, end=0.2)
+    check("same_start")
+    if case.get("extra") == "combine" and all(cl.signal_by_index(i).npts > 30 for i in (0, 1)):
+        ctx.lib(cl.combine_motions, 5.0, low_index=0, high_index=1, order=2)
+        ctx.cls("combine_motions")
+        check("combine_motions")
+    elif case.get("extra") == "spectra" and case["stype"] == "acc":
+        ctx.lib(cl.generate_response_spectrums)
+        ctx.cls("generate_response_spectrums")
+        check("generate_response_spectrums")
+    for i, op, j, v in post:
+        sig = cl.signal_by_index(i)
+        if op == "caller_write":
+            before = [_snap(np.array(cl.signal_by_index(q).values)) for q in range(k)]
+            if how == "lists":
+                vals[i][j % len(vals[i])] = float(v)
+            else:
+                block[i, j % block.shape[1]] = float(v)
+            snap = snap_in()
+            after = [_snap(np.array(cl.signal_by_index(q).values)) for q in range(k)]
+            ctx.check(before == after, "a caller write into row %d of its own input changed a cluster signal's values" % i)
+            ctx.cls("caller_write")
+        else:
+            if op in c04mod.ACC_ONLY and case["stype"] != "acc":
+                continue
+            if op == "butter_pass" and sig.npts <= 20:
+                continue
+            if c04mod._apply(ctx, sig, op, _POST_ARGS[op]):
+                ctx.cls("post=" + op)
+        check("after %s on signal %d" % (op, i))
+
+
+# ---------------------------------------------------------------------------
+# clause 1c: ownership of PARAMETER arrays given to the constructors (periods of the response spectra, target frequencies of the
+# smoothed spectrum): "signal objects own their data" - neither side's later in-place edit reaches the other
+
+@st.composite
+def _param_cases(draw):
+    kind = draw(st.sampled_from(["response_times", "smooth_fa_freqs"]))
+    m = draw(st.integers(2, 12))
+    ops = draw(st.lists(st.one_of(
+        st.tuples(st.just("caller_write"), st.integers(0, 50), st.floats(0.05, 9.0, allow_nan=False)),
+        st.tuples(st.just("scale"), st.just(0), st.sampled_from([0.5, 1.25, 2.0])),
+        st.tuples(st.just("read"), st.just(0), st.just(0.0)),
+        st.tuples(st.just("regen"), st.just(0), st.just(0.0))), min_size=1, max_size=6))
+    return {"kind": kind, "m": m, "n": draw(st.integers(40, 160)), "seed": draw(st.integers(0, 10 ** 6)), "dt": draw(st.sampled_from([0.005, 0.01, 0.02])),
+            "how": draw(st.sampled_from(["float", "float", "list", "subclass", "arraylike", "view"])), "lead0": draw(st.booleans()),
+            "ops": [list(o) for o in ops]}
+
+
+@clause(CLAUSES, "parameter-ownership", _param_cases(), quick=120, thorough=400,
+        rule="AccSignal(values, dt, response_times=P) / Signal|AccSignal(values, dt, smooth_fa_freqs=P) with P a float64 ndarray, list, ndarray "
+             "subclass, __array__ object or non-contiguous view of 2-12 periods (optionally a leading 0) / frequencies; then 1-6 steps: caller "
+             "writes P[i] = v, object-side in-place edit (`obj.response_times *= c`, `obj.smooth_fa_freqs *= c`), read of the spectra, explicit "
+             "regeneration; non-trivial = at least one write / in-place edit",
+        oracle="invariants after every step: P equals its snapshot (an object-side edit or a library operation never reaches it); a caller write "
+               "into P leaves the object's setting (snapshot of obj.response_times / obj.smooth_fa_freqs) unchanged",
+        min_nontrivial=0.4)
+def parameter_ownership(case, ctx):
+    rs = np.random.RandomState(case["seed"])
+    dt, m = case["dt"], case["m"]
+    vals = rs.standard_normal(case["n"]) * np.hanning(case["n"]) + 0.02
+    if case["kind"] == "response_times":
+        p = dt * np.sort(rs.uniform(6.0, 150.0, m))
+        if case["lead0"]:
+            p[0] = 0.0
+    else:
+        p = np.sort(rs.uniform(0.2, 0.4 / dt, m))
+    how = case["how"]
+    P = _container({"k": "vals", "v": [float(x) for x in p]}, how)
+    snapP = _snap(P)
+    name = case["kind"]
+    ctx.cls("param=" + name, "how=" + how)
+    if name == "response_times":
+        obj = ctx.lib(eqsig.AccSignal, vals, dt, response_times=P)
+    else:
+        obj = ctx.lib(eqsig.AccSignal if case["seed"] % 2 else eqsig.Signal, vals, dt, smooth_fa_freqs=P)
+
+    def setting():
+        return _arr_snap(np.array(getattr(obj, name), dtype=float))
+
+    def check(what):
+        ctx.check(_snap(P) == snapP, "%s modified the caller's %s container (%s)" % (what, name, how))
+    check("the constructor")
+    for op, i, v in case["ops"]:
+        if op == "caller_write":
+            before = setting()
+            P[i % len(P)] = float(v)
+            snapP = _snap(P)
+            ctx.check(setting() == before, "a caller write into its own %s container (%s) changed the object's %s" % (name, how, name))
+            ctx.nt(True)
+        elif op == "scale":
+            arr = getattr(obj, name)
+            if isinstance(arr, np.ndarray) and arr.dtype.kind == "f" and arr.flags.writeable:
+                arr *= v  # what `obj.<name> *= c` does: in-place on the object's array, then assigned back
+                setattr(obj, name, arr)
+                ctx.nt(True)
+                check("an in-place edit of obj.%s" % name)
+        elif op == "read":
+            ctx.lib(lambda: np.array(obj.s_a) if name == "response_times" else np.array(obj.smooth_fa_spectrum))
+            check("reading the spectrum")
+        else:
+            if name == "response_times":
+                ctx.lib(obj.generate_response_spectrum)
+            else:
+                ctx.lib(obj.generate_smooth_fa_spectrum)
+            check("regenerating the spectrum")
 
 
 # ---------------------------------------------------------------------------
@@ -434,7 +653,7 @@ class Env(object):
     legacy lists)."""
 
     def __init__(self, a, b, dt, seed, m=None):
-        self.d = {"dt": dt, "seed": int(seed), "m": m}
+        self.d = {"dt": dt, "seed": int(seed), "m": m, "warm": False, "warm_spectra": False}
         self.lazy = {"a": a, "b": b}  # containers, or callables making them (mid-range records are built when a form needs them)
         self.tmpdirs = []
 
@@ -447,11 +666,46 @@ class Env(object):
                 self.d[k] = _BUILD[k](self)
         return self.d[k]
 
+    def new_form(self, name):
+        """Every call form gets its OWN signal objects (nothing cached on them by an earlier form): cold (nothing computed yet: the first
+        call on a fresh object is judged) or, for a hash-chosen third, warmed (every cached series / spectrum read beforehand, so that
+        the snapshot of the argument covers them)."""
+        for k in SIG_KEYS:
+            self.d.pop(k, None)
+        self.d["warm"] = _hh("warm", name, self.d["seed"]) % 3 == 0
+        self.d["warm_spectra"] = _hh("warmsp", name, self.d["seed"]) % 4 == 0
+
     def cleanup(self):
         for d in self.tmpdirs:
             shutil.rmtree(d, ignore_errors=True)
         self.tmpdirs = []
         self.d.pop("tmpfile", None)
+
+
+SIG_KEYS = ("asig", "bsig", "sig", "asig_long", "asig_even", "asig_sw")
+
+
+def _hh(*parts):
+    import hashlib
+    return int(hashlib.blake2b(":".join(str(p) for p in parts).encode(), digest_size=8).hexdigest(), 16)
+
+
+def _sigb(make):
+    """A signal builder: AccSignal members carry, in two environments out of three, their own short period list (a zero period, one below
+    two time steps, three ordinary ones) instead of the 100 default periods; warmed when the form asks for it."""
+    def build(E):
+        o = make(E)
+        if E["warm"]:
+            _warm(o, spectra=E["warm_spectra"])
+        return o
+    return build
+
+
+def _acc(E, values):
+    rt = E["rt_own"]
+    if rt is None:
+        return eqsig.AccSignal(values, E["dt"])
+    return eqsig.AccSignal(values, E["dt"], response_times=np.array(rt))
 
 
 def _rs(E, salt):
@@ -525,7 +779,7 @@ def _b_stock(E):
 
 
 def _b_asig_sw(E):
-    o = eqsig.AccSignal(np.array(E["af"][:400]), E["dt"])
+    o = _acc(E, np.array(E["af"][:400]))
     o.swtf = stockwell.transform(o.values)
     return o
 
@@ -550,12 +804,19 @@ _BUILD = {
     "T_mixed": _b_T_mixed,
     "w": lambda E: 2 * np.pi / E["T"][1:],
     "xis": lambda E: np.array([0.05, 0.1]),
-    "asig": lambda E: eqsig.AccSignal(np.array(E["a"], dtype=float), E["dt"]),
-    "bsig": lambda E: eqsig.AccSignal(np.array(E["b"], dtype=float), E["dt"]),
-    "sig": lambda E: eqsig.Signal(np.array(E["a"], dtype=float), E["dt"]),
-    "asig_long": lambda E: eqsig.AccSignal(np.resize(E["af"], max(E["n"], int(2.2 / E["dt"]) + 2)) * 1.0, E["dt"]),
-    "asig_even": lambda E: eqsig.AccSignal(np.array(E["af"][:2 * (E["n"] // 2)]), E["dt"]),
-    "asig_sw": _b_asig_sw,
+    "rt_own": lambda E: None if _hh("rt", E["seed"]) % 3 == 0 else E["dt"] * np.array([0.0, 1.5, 3.0, 12.0, 40.0]),
+    "asig": _sigb(lambda E: _acc(E, np.array(E["a"], dtype=float))),
+    "bsig": _sigb(lambda E: _acc(E, np.array(E["b"], dtype=float))),
+    "sig": _sigb(lambda E: eqsig.Signal(np.array(E["a"], dtype=float), E["dt"])),
+    "asig_long": _sigb(lambda E: _acc(E, np.resize(E["af"], max(E["n"], int(2.2 / E["dt"]) + 2)) * 1.0)),
+    "asig_even": _sigb(lambda E: _acc(E, np.array(E["af"][:2 * (E["n"] // 2)]))),
+    "asig_sw": _sigb(_b_asig_sw),
+    "Tper": lambda E: np.concatenate([[0.0, 0.05, 0.2, 0.7, 2.0, 3.5], np.array(E["T"][1:]) * 10.0]),
+    "Tper_list": lambda E: [float(t) for t in E["Tper"]],
+    "T1": lambda E: np.array([0.7]),
+    "cut_list": lambda E: [float(c) for c in E["cut"]],
+    "cut_lo": lambda E: (None, float(E["cut"][1])),
+    "vals_copy": lambda E: np.array(E["af"]),
     "fa": lambda E: f_fr.calc_fa_spectrum(eqsig.Signal(np.array(E["af"]), E["dt"])),
     "fa_spec": lambda E: E["fa"][0],
     "fa_freqs": lambda E: E["fa"][1],
@@ -808,6 +1069,22 @@ def _build_forms():
     form("interp_to_approx_dt(AccSignal with 0-d dt)",
          V(lambda E: (lambda d0: (lambda o: (f_tstep.interp_to_approx_dt(o, target_dt=E["dt"] / 3), float(o.dt)))(
              eqsig.AccSignal(np.array(E["af"]), d0)))), ("$dt0",), cap="vec2")
+    form("Signal.butter_pass(list cut-offs)", _m(lambda o, arr: (o.butter_pass(arr, filter_order=2), np.array(o.values))[1]), ("$cut_list",), cap="vec2")
+    form("Signal.butter_pass((None, f), gibbs)", _m(lambda o, arr: (o.butter_pass(arr, filter_order=2, remove_gibbs="end"), np.array(o.values))[1]),
+         ("$cut_lo",), cap="vec2")
+    # settings arrays given to the constructors
+    form("AccSignal(response_times=).s_a", V(lambda E: (lambda arr: np.array(eqsig.AccSignal(np.array(E["af"]), E["dt"], response_times=arr).s_a))),
+         ("$T_mixed",), cap="sdofmany", count="loop")
+    form("AccSignal(response_times=list).response_series", V(lambda E: (lambda arr: eqsig.AccSignal(np.array(E["af"]), E["dt"], response_times=arr).response_series())),
+         (V(lambda E: [float(t) for t in E["T_desc"]]),), cap="sdof", count="loop")
+    form("Signal(smooth_fa_freqs=).smooth_fa_spectrum",
+         V(lambda E: (lambda arr: np.array(eqsig.Signal(np.array(E["af"]), E["dt"], smooth_fa_freqs=arr).smooth_fa_spectrum))), ("$F_desc",),
+         cap="smooth", count="nm")
+    # design spectra: the period argument may be an array / a list
+    cross("design.c_h_factor", design_spectra.c_h_factor, ("$Tper",), [opt("site_class", "D", "E")], count="nm")
+    cross("design.c_h_factor(list)", design_spectra.c_h_factor, ("$Tper_list",), [opt("site_class", "D", "E")])
+    form("design.sd_nzs(1-element array)", design_spectra.sd_nzs, ("$T1", "D", 0.4, 1.0, 1.0))
+    form("design.sd_nzs(array)", design_spectra.sd_nzs, ("$Tper", "C", 0.4, 1.0, 1.0))
     form("loader.save_signal", loader.save_signal, ("$tmpfile", "$asig"), cap="save", loader=True)
     form("loader.save_values_and_dt", loader.save_values_and_dt, ("$tmpfile", "$a", "$dt", "lab"), cap="save", loader=True)
 
@@ -820,10 +1097,14 @@ ROTATE = 4  # every small-record case runs all primary forms and one in ROTATE o
 # forms that raise on the pinned tree for every input, for a reason that is not a C05 matter (the inputs must still be unchanged):
 # np.trapz no longer exists in NumPy 2.x; calc_a_rms was removed (always raises); calc_sir unpacks the scalar significant duration
 ALWAYS_REJECTED = ("im.calc_acc_rms", "im.calc_a_rms", "im.calc_sir", "im.calc_vsi_temporal", "frequency.calc_fourier_moment",
-                   "frequency.get_bandwidth_boore_2003")
+                   "frequency.get_bandwidth_boore_2003", "design.sd_nzs(array)")  # (sd_nzs compares the whole array with a scalar)
+LAST_ERR = [None]
 
 
 def _expected_reject(name):
+    e = LAST_ERR[0]
+    if isinstance(e, AttributeError) and "numpy" in str(e):  # a NumPy function that this NumPy version no longer has (np.trapz ...)
+        return True
     return name.startswith(ALWAYS_REJECTED)
 
 
@@ -844,20 +1125,26 @@ def _kwargs_of(f, E):
     return out
 
 
-def _scribble(x):
-    """Overwrite every writeable ndarray inside a result in place."""
+def _scribble(x, skip=()):
+    """Overwrite every writeable ndarray inside a result in place (also the values of a returned signal), except the arrays in
+    `skip` (those that are views of the caller's own input)."""
     if isinstance(x, np.ndarray):
+        if any(x is k for k in skip):
+            return
         if x.flags.writeable and x.size and x.dtype.kind in "fiuc":
             try:
                 x += 7
             except Exception:  # noqa
                 pass
+    elif isinstance(x, eqsig.Signal):
+        _scribble(x.values, skip)
     elif isinstance(x, (tuple, list)):
         for v in x:
-            _scribble(v)
+            if isinstance(v, (np.ndarray, eqsig.Signal, tuple, list)):
+                _scribble(v, skip)
 
 
-def _arrays(x, out=None):
+def _arrays(x, out=None, depth=0):
     """The ndarrays inside a result / an argument (signal -> its values)."""
     out = [] if out is None else out
     if isinstance(x, np.ndarray):
@@ -865,9 +1152,10 @@ def _arrays(x, out=None):
     elif isinstance(x, eqsig.Signal):
         if isinstance(x.values, np.ndarray):
             out.append(x.values)
-    elif isinstance(x, (tuple, list)) and len(x) <= 16:
+    elif isinstance(x, (tuple, list)) and depth < 3:
         for v in x:
-            _arrays(v, out)
+            if isinstance(v, (np.ndarray, eqsig.Signal, tuple, list)):
+                _arrays(v, out, depth + 1)
     return out
 
 
@@ -904,16 +1192,19 @@ def _check_form(ctx, f, E, how):
 
 def _check_form_inner(ctx, f, E, how):
     name = f.name
+    E.new_form(name)
+    LAST_ERR[0] = None
     fn = _resolve(f.fn, E)
     args = tuple(_resolve(x, E) for x in f.args)
     kwargs = _kwargs_of(f, E)
     n = E["n"]
-    where = "(%s input, n=%d%s)" % (how, n, "" if E["m"] is None else ", m=%d" % E["m"])
+    where = "(%s input, n=%d%s%s)" % (how, n, "" if E["m"] is None else ", m=%d" % E["m"], ", warmed signal" if E["warm"] else "")
     allargs = list(args) + list(kwargs.values())
+    sigargs = [x for x in allargs if isinstance(x, eqsig.Signal)]
     before = [_snap(x) for x in allargs]
-    passthrough = f.flags.get("passthrough")
-    passthrough = bool(passthrough and passthrough(f.kwargs))
+    inputs = [(i, xv) for i, x in enumerate(allargs) for xv in _arrays(x)]
     res = []
+    mid = None
     err = None
     for rep in range(2):
         try:
@@ -922,39 +1213,80 @@ def _check_form_inner(ctx, f, E, how):
                 res.append(fn(*args, **kwargs))
         except MemoryError as e:
             raise core.Inconclusive("out of memory in %s %s: %s" % (name, where, str(e)[:100]))
-        except Exception as e:  # noqa  (rejected container / argument: not a C05 matter)
-            err = e
+        except Exception as e:  # noqa
+            if rep == 1:
+                # the first call returned a value: "returns the same result when called again" - raising is not the same result
+                # (unless the function already corrupted its arguments, which is reported as such below)
+                after = [_snap(x) for x in allargs]
+                if after == before:
+                    ctx.fail("%s returned a result and then raised %s: %s when called again with the same arguments %s" % (
+                        name, type(e).__name__, str(e)[:100], where))
+            err = e  # first call raised: rejected container / argument - not a C05 matter, but the inputs must be unchanged
+            LAST_ERR[0] = e
             break
         if rep == 0 and not f.flags.get("loader"):
-            # a result belongs to the caller: it shares no memory with an argument ...
-            if not passthrough:
-                for r in _arrays(res[0]):
-                    for i, x in enumerate(allargs):
-                        for xv in _arrays(x):
-                            if np.may_share_memory(r, xv) and np.shares_memory(r, xv):
-                                ctx.fail("%s returned a result that shares memory with its argument #%d %s" % (name, i, where))
-                # ... so the caller may overwrite it in place (shifting indices, scaling a series) before calling again: keep a
-                # pristine copy for the comparison and scribble over the original
-                pristine = copy.deepcopy(res[0]) if not isinstance(res[0], eqsig.Signal) else res[0]
-                _scribble(res[0])
-                res[0] = pristine
+            # What the statement implies about the result (audit, false-alarm list): "returns the same result when called again" is
+            # asserted for the situation every caller is in - the first result belongs to the caller, who may have overwritten it in
+            # place (shifted indices, scaled a series) before calling again with the unchanged input.  So every array of the result is
+            # scribbled over before the second call (a result that is really a buffer kept by the library / cached on the signal
+            # argument then shows as a different second result).  NOT implied: that a result must not be a view of the INPUT (a
+            # documented pass-through such as trim_to_length(trim=False, start=False), a slice view, `return values` for a no-op) -
+            # overwriting such a result would be the caller editing its own input, so those arrays are left alone and only labelled.
+            # A returned *Signal* is different: sentence 1 (signal objects own their data) applies to it - a later in-place correction
+            # on the returned object must not reach the caller's array - so its values must not share memory with an argument.
+            aliased = []
+            for r in _arrays(res[0]):
+                for i, xv in inputs:
+                    if np.may_share_memory(r, xv) and np.shares_memory(r, xv):
+                        aliased.append(r)
+                        break
+            if aliased:
+                ctx.cls("result-aliases-input")
+            for r in (res[0] if isinstance(res[0], (tuple, list)) else [res[0]]):
+                if isinstance(r, eqsig.Signal):
+                    if any(x is r for x in allargs):
+                        ctx.fail("%s returned its own argument object instead of a new signal %s" % (name, where))
+                    if any(r.values is k for k in aliased):
+                        ctx.fail("%s returned a signal whose values share memory with an argument %s" % (name, where))
+            pristine = copy.deepcopy(res[0])
+            _scribble(res[0], skip=aliased)
+            res[0] = pristine
+        if rep == 0:
+            mid = [_sig_state(x) for x in sigargs]  # whatever the first call cached on its signal arguments
     after = [_snap(x) for x in allargs]
     for i, (p, q) in enumerate(zip(before, after)):
+        if isinstance(allargs[i], eqsig.Signal) and p[6] is not None and q[6] is not None:
+            # arrays compared = those present before the call (caching a NEW auxiliary attribute on the signal, e.g. asig.swtf, is not
+            # a mutation of its data)
+            have = set(k for k, _ in p[6])
+            q = q[:6] + (tuple(kv for kv in q[6] if kv[0] in have),)
         if p != q:
-            ctx.fail("%s modified its argument #%d %s%s" % (name, i, where, "" if err is None else " before raising %s" % type(err).__name__))
+            what = "modified its argument #%d" % i
+            if isinstance(allargs[i], eqsig.Signal) and p[:5] == q[:5]:
+                what = "modified an array held by its signal argument #%d (%s)" % (i, _diff_keys(p, q))
+            ctx.fail("%s %s %s%s" % (name, what, where, "" if err is None else " before raising %s" % type(err).__name__))
     if err is not None:
         return False
+    # the arrays a signal argument held after the first call (lazily computed series / spectra) are untouched by the second, identical call
+    for x, st0 in zip(sigargs, mid):
+        have = set(k for k, _ in st0)
+        st1 = tuple(kv for kv in _sig_state(x) if kv[0] in have)
+        if st1 != st0:
+            ctx.fail("%s changed an array held by its signal argument (%s) when called again %s" % (name, _diff_keys(((),) * 6 + (st0,), ((),) * 6 + (st1,)), where))
     if f.flags.get("loader"):
         return True
-    # a returned signal owns its data: it is not one of the arguments
-    for r in (res[0] if isinstance(res[0], (tuple, list)) else [res[0]]):
-        if isinstance(r, eqsig.Signal):
-            for x in allargs:
-                if x is r:
-                    ctx.fail("%s returned its own argument object instead of a new signal %s" % (name, where))
     if not _same(res[0], res[1]):
         ctx.fail("%s returned a different result when called again %s" % (name, where))
     return True
+
+
+def _diff_keys(p, q):
+    """Names of the signal-held arrays that differ between two signal snapshots."""
+    out = []
+    for a, b in ((p[5], q[5]), (p[6] or (), q[6] or ())):
+        da, db = dict(a), dict(b)
+        out += [k for k in sorted(set(da) | set(db)) if da.get(k) != db.get(k)]
+    return ", ".join(sorted(set(out))) or "?"
 
 
 @st.composite
@@ -963,23 +1295,30 @@ def _pure_cases(draw):
     kinds = ["noise", "sines", "quake", "walk", "pulse", "levels", "dyadic", "vals"]
     a = draw(gen.record_specs(min_n=n, max_n=n, small_max=n, kinds=kinds, amp_lo=-2, amp_hi=2, allow_zero_runs=False))
     b = draw(gen.record_specs(min_n=n, max_n=n, small_max=n, kinds=["noise", "sines", "walk"], amp_lo=-2, amp_hi=2, allow_zero_runs=False))
-    return {"a": a, "b": b, "dt": draw(st.sampled_from([0.005, 0.01, 0.02, 0.05])), "seed": draw(st.integers(0, 10 ** 6))}
+    return {"a": a, "b": b, "dt": draw(st.sampled_from([0.005, 0.01, 0.02, 0.05])), "seed": draw(st.integers(0, 10 ** 6)),
+            "rot": draw(st.sampled_from(list(range(ROTATE))))}
 
 
 @clause(CLAUSES, "pure-functions", _pure_cases(), quick=14, quick_shards=3, thorough=45,
-        rule="each case calls, for each of three container variants (float64 ndarray; int64 or full-range int16 / int32 ndarray; list), every PRIMARY call form (one per function "
+        rule="each case calls, for each of three container variants (float64 ndarray; int64 or full-range int16 / int32 ndarray; list; in one case of three also a non-contiguous view or a read-only array), on fresh signal objects per form (a third of them warmed), every PRIMARY call form (one per function "
              "with all options at their defaults + one with every option non-default, the object methods taking arrays, the 0-d dt variants, "
              "loader.save) and one in 4 (rotating with the case) of the remaining forms of the cross product of every function's optional "
              "arguments (%d forms in all: sdof, displacements, im, fns.average/generic/frequency/peaks_and_crossings/time_shift/time_step, "
-             "stockwell, surface, multiple), twice, on records of n 24..300; non-trivial = non-constant record" % len(FORMS),
-        oracle="snapshot (dtype, shape, bytes; signal values/dt/npts) of every argument before vs after each call; no array of the result shares "
-               "memory with an argument; the two results equal (NaN-aware, exact) although the caller overwrote the first result in place "
-               "before the second call; returned signals are new objects",
-        require={"how=int": 0.15, "how=int16": 0.15, "how=int32": 0.15, "how=list": 0.9})
+             "stockwell, surface, multiple, design_spectra, constructors with settings arrays), twice, on records of n 24..300; non-trivial = non-constant record" % len(FORMS),
+        oracle="snapshot (dtype, shape, bytes; signal: values/dt/npts + settings arrays + - warmed objects - every array it holds) of every argument "
+               "before vs after the two calls; arrays a signal argument holds after the first call unchanged by the second; the two results equal "
+               "(NaN-aware, exact) although the caller overwrote the first result in place (views of the input excepted) before the second call; "
+               "an exception in the second call only is a violation; returned signals are new objects sharing no memory with an argument",
+        require={"how=int": 0.15, "how=int16": 0.15, "how=int32": 0.15, "how=list": 0.9, "rot=0": 0.08, "rot=1": 0.08, "rot=2": 0.08, "rot=3": 0.08,
+                 "signal=warm": 0.9, "signal=cold": 0.9})
 def pure_functions(case, ctx):
     # the integer container alternates between int64 and the narrow dtypes int16 / int32 (full range) with the case's seed
     ints = ("int", "int16", "int32")[int(core.case_hash(case)[:4], 16) % 3]
-    for how in (["float", ints, "list"] if "how" not in case else [case["how"]]):
+    hows = ["float", ints, "list"]
+    h = int(core.case_hash(case)[4:8], 16)
+    if h % 3 == 0:  # one case in three: also the same float64 values in a non-contiguous view / a read-only array
+        hows.append(("view", "readonly")[(h // 3) % 2])
+    for how in (hows if "how" not in case else [case["how"]]):
         _pure_one(case, ctx, how)
 
 
@@ -993,30 +1332,33 @@ def _pure_one(case, ctx, how):
     if len(b) != n:
         b = [float(v) for v in np.resize(np.asarray(b), n)] if how == "list" else np.resize(b, n)
     E = Env(a, b, case["dt"], case["seed"])
-    names = PRIMARY + [nm for i, nm in enumerate(ROTATING) if (i + case["seed"]) % ROTATE == 0]
+    rot = case.get("rot", case["seed"] % ROTATE)
+    ctx.cls("rot=%d" % rot)
+    names = PRIMARY + [nm for i, nm in enumerate(ROTATING) if (i + rot) % ROTATE == 0]
     if "forms" in case:  # (replay files / corpus may name the forms)
         names = list(case["forms"])
     rejected = 0
     try:
         for name in names:
-            if not _check_form(ctx, FORMS[name], E, how) and not _expected_reject(name):
+            ok = _check_form(ctx, FORMS[name], E, how)
+            ctx.cls("signal=warm" if E["warm"] else "signal=cold")
+            if not ok and not _expected_reject(name):
                 rejected += 1
     finally:
         E.cleanup()
     ctx.notes["rejected"] = rejected
-    if how == "float" and len(np.unique(af)) > 4:  # (constant / two-level records are legitimately rejected by many functions)
-        if rejected > max(4, 0.06 * len(names)):
-            raise core.HarnessError("%d of %d call forms raised on a float64 record (builders out of date?)" % (rejected, len(names)))
+    if len(np.unique(af)) > 4:  # (constant / two-level records are legitimately rejected by many functions)
+        # float64: at most the data-dependent rejections of get_zero_and_peak_array_indices; the other containers additionally the
+        # functions that need ndarray methods / arithmetic (lists) - a function that starts to raise for EVERY list / integer / view
+        # record would silently lose that coverage otherwise
+        allow = max(4, 0.06 * len(names)) if how == "float" else max(8, 0.10 * len(names))
+        if rejected > allow:
+            raise core.HarnessError("%d of %d call forms raised on a %s record (builders out of date?)" % (rejected, len(names), how))
 
 
 # ---------------------------------------------------------------------------
 # mid-range sizes: the same assertions on records of laddered lengths (a function may switch to an in-place or view-returning
 # path only for long inputs, or only for many periods / shifts / travel times)
-
-def _hh(*parts):
-    import hashlib
-    return int(hashlib.blake2b(":".join(str(p) for p in parts).encode(), digest_size=8).hexdigest(), 16)
-
 
 MID_KINDS = ("quake", "sines", "walk")
 MID_DTS = (0.005, 0.01, 0.02)
@@ -1040,11 +1382,24 @@ def _mid_record(n, kind, seed):
     return a
 
 
+ALT_HOWS = ("int", "list", "int16", "int32", "readonly", "view")
+
+
+def _alts(*tag):
+    """The non-float64 containers in a hash-chosen order: int64, list, full-range int16 / int32 (gen.narrow_int), a read-only float64
+    array, a non-contiguous float64 view."""
+    return sorted(ALT_HOWS, key=lambda h: _hh(h, *tag))
+
+
 def _as_container(a, how):
     if how == "int":
         return np.array(np.round(a * 8), dtype=np.int64)
+    if how in gen.NARROW_DTYPES:
+        return gen.narrow_int(a, how)[0]
     if how == "list":
         return [float(v) for v in a]
+    if how in ("view", "readonly", "negstride"):
+        return gen.as_container({"as": how}, np.array(a, dtype=float))
     return np.array(a, dtype=float)
 
 
@@ -1071,11 +1426,12 @@ def _mid_plan(f, tier):
     cap = CAPS[f.cap][0 if tier == "quick" else 1]
     lo = LADDER_LO.get(f.cap, 2000)
     top = _top(cap, s, "top", f.name)
-    alts = ["int", "list"] if _hh(s, "alt", f.name) % 2 else ["list", "int"]
+    alts = _alts(s, "alt", f.name)
     mined = gen.mined_sizes(lo, cap, 8, "c05:" + f.name)
     if tier != "quick":
         rungs = gen.ladder(lo, int(0.9 * cap), 12, "c05t:" + f.name)
-        return [(n, how) for n in sorted(set(rungs + [top] + mined)) for how in ("float", "int", "list") if how != "list" or n <= 4 * LIST_MAX]
+        return [(n, how) for n in sorted(set(rungs + [top] + mined)) for how in ("float", "int", "list", [h for h in alts if h not in ("int", "list")][0])
+                if how != "list" or n <= 4 * LIST_MAX]
     rungs = gen.ladder(lo, int(0.9 * cap), 10, "c05:" + f.name)
     half = max(1, len(rungs) // 2)
     lower, upper = rungs[:half], rungs[half:] or rungs
@@ -1118,7 +1474,7 @@ def _mid_check(case, ctx):
     finally:
         E.cleanup()
     if not ok:
-        ctx.cls("rejected", "rejected:" + ("expected" if _expected_reject(f.name) or how != "float" else "float"))
+        ctx.cls("rejected", "rejected:" + ("expected" if _expected_reject(f.name) else how))
     ctx.nt(ok)
 
 
@@ -1149,7 +1505,7 @@ def _count_plan(f, tier):
     m_top = _top(5000, s, "mtop", f.name)
     rungs = gen.ladder(40, 4400, 8 if quick else (10 if f.primary else 5), "c05m:" + f.name)
     mined = [c for c in gen.mined_sizes(40, 5000, 6, "c05m:" + f.name)]
-    alts = ["int", "list"] if _hh(s, "malt", f.name) % 2 else ["list", "int"]
+    alts = _alts(s, "malt", f.name)
 
     if not f.primary:
         budget = budget / 2.5
@@ -1159,7 +1515,8 @@ def _count_plan(f, tier):
         return int(max(n_lo, min(n_hi, cap_n, budget // m)))
     if not quick:
         if f.primary:
-            return [(m, n_of(m), how) for m in sorted(set(rungs + [m_top] + mined)) for how in ("float", "int", "list")]
+            return [(m, n_of(m), how) for m in sorted(set(rungs + [m_top] + mined))
+                    for how in ("float", "int", "list", [h for h in alts if h not in ("int", "list")][0])]
         return [(m, n_of(m), how) for m in sorted(set(rungs + [m_top])) for how in ("float", alts[0])]
     r = rungs[_hh(s, "mr", f.name) % len(rungs)]
     if not f.primary:  # (the other members of a cross product: one count each, the top tenth for a hash-chosen third)
@@ -1230,7 +1587,7 @@ def _own_enum(tier, shard, nshards):
                 if i % nshards == shard:
                     yield {"init": {"A": {"k": "quake", "n": int(n), "seed": int(h % 10 ** 6), "amp": 0},
                                     "B": {"k": "noise", "n": int(n), "seed": int(h % 10 ** 6) + 1, "amp": 0},
-                                    "dt": MID_DTS[h % 3], "acc": acc, "how": {"A": ha, "B": hb}}, "ops": seq}
+                                    "dt": OWN_DTS[h % len(OWN_DTS)], "acc": acc, "how": {"A": ha, "B": hb}}, "ops": seq}
                 i += 1
 
 
